@@ -1297,6 +1297,20 @@ def c_once_get_or_init(m, st, f, a):
     return call_then(m, st, a[1], [], then, r)
 
 
+@contract(r'^(OnceCell|OnceLock)::<.*>::(take|into_inner)$')
+def c_once_take(m, st, f, a):
+    """take(&mut self) -> Option<T>, leaving the cell uninitialised; into_inner(self) -> Option<T>"""
+    if f.endswith('into_inner'): return sv(a[0]).f[0]
+    c = deref(a[0]); old = c.f[0]; c.f[0] = none(); return old
+
+
+@contract(r'^(OnceCell|OnceLock)::<.*>::set$')
+def c_once_set(m, st, f, a):
+    c = deref(a[0])
+    if disc_of(m, st, c.f[0]) == 1: return err(a[1])
+    c.f[0] = some(a[1]); return ok(UNIT)
+
+
 @contract(r'^<(OnceCell|OnceLock)<.*> as Clone>::clone$', 3)
 def c_once_clone(m, st, f, a): return copy_val(deref(a[0]))
 
